@@ -4,62 +4,7 @@ use monitor::{Outcome, Script};
 use serde_json::json;
 use subjects::{Registry, Subject};
 use vcore::evidence::{Acc, Finish};
-use vcore::{Ctx, Ov, Path, Step};
-
-pub fn all_paths(p: &Ov) -> Vec<Path> {
-    fn rec(p: &Ov, cur: &mut Path, out: &mut Vec<Path>) {
-        out.push(cur.clone());
-        match p {
-            Ov::Seq(v) => {
-                for (i, x) in v.iter().enumerate() {
-                    cur.push(Step::Index(i));
-                    rec(x, cur, out);
-                    cur.pop();
-                }
-            }
-            Ov::Map(m) => {
-                for (k, x) in m {
-                    cur.push(Step::Key(k.clone()));
-                    rec(x, cur, out);
-                    cur.pop();
-                }
-            }
-            _ => {}
-        }
-    }
-    let mut out = vec![];
-    rec(p, &mut vec![], &mut out);
-    out
-}
-
-pub fn replace_at(p: &Ov, path: &[Step], new: &Ov) -> Ov {
-    if path.is_empty() {
-        return new.clone();
-    }
-    match (p, &path[0]) {
-        (Ov::Seq(v), Step::Index(i)) => Ov::Seq(v.iter().enumerate().map(|(j, x)| if j == *i { replace_at(x, &path[1..], new) } else { x.clone() }).collect()),
-        (Ov::Map(m), Step::Key(k)) => {
-            let mut done = false;
-            Ov::Map(
-                m.iter()
-                    .map(|(kk, x)| {
-                        if kk == k && !done {
-                            done = true;
-                            (kk.clone(), replace_at(x, &path[1..], new))
-                        } else {
-                            (kk.clone(), x.clone())
-                        }
-                    })
-                    .collect(),
-            )
-        }
-        _ => p.clone(),
-    }
-}
-
-pub fn intruders() -> Vec<Ov> {
-    vec![Ov::Null, Ov::Bool(true), Ov::Int(70000), Ov::Neg(-70000), Ov::float(1.5), Ov::str("zz"), Ov::Seq(vec![Ov::Int(1)]), Ov::Map(vec![("q".into(), Ov::Int(1))])]
-}
+use vcore::Ctx;
 
 fn check(acc: &mut Acc, reg: &Registry, s: &dyn Subject, case: &Case, src: Source, script: Script, with_model: bool) {
     let run = run_case(s, &case.payload, src, script.clone());
